@@ -531,12 +531,18 @@ package server
 //@   tag C03
 //@   claims at-call
 //@   at-call path.RemoveLocalPref() requires !peer.isConfederationMember()
+// from C09 "to route-server clients the route is unchanged": a route-server client gets the route as it is stored,
+// LOCAL_PREF included (taking it off there would also take it off the stored route itself)
+//@   at-call path.RemoveLocalPref() requires !peer.isRouteServerClient()
 //@ func (*BgpServer).postFilterpath
 //@   requires peer != nil
 //@   claims at-call at-return
 // from C03 "highest LOCAL_PREF": LOCAL_PREF is only taken off for a peer outside the local AS and outside the
 // confederation - members of the confederation exchange it like iBGP peers do (RFC 5065 4, 5)
 //@   at-call path.RemoveLocalPref() requires !peer.isConfederationMember()
+// from C09 "to route-server clients the route is unchanged": a route-server client gets the route as it is stored,
+// LOCAL_PREF included (taking it off there would also take it off the stored route itself)
+//@   at-call path.RemoveLocalPref() requires !peer.isRouteServerClient()
 //@   at-call ^path.Clone( requires arg1
 //@   at-return requires path0 != nil && !old(path0.IsWithdraw) && old(!peer.isLLGREnabledFamily(path0.GetFamily()) && path0.IsLLGRStale()) ==> ret0 != path0 && called(Clone)
 
